@@ -1092,6 +1092,14 @@ namespace bloch::runtime {
                     rc->destructorDecl = dtor;
                 }
             }
+            // Adding overloads grows the per-name buckets and may move earlier entries: bind the
+            // vtable slots of this class's own virtual methods to their final addresses.
+            for (auto& kv : rc->methods) {
+                for (auto& m : kv.second) {
+                    if (m.isVirtual || m.isOverride)
+                        rc->vtable[m.signature] = &m;
+                }
+            }
             if (rc->staticStorage.size() < rc->staticFields.size())
                 rc->staticStorage.resize(rc->staticFields.size());
         }
@@ -1214,6 +1222,12 @@ namespace bloch::runtime {
             } else if (auto dtor = dynamic_cast<DestructorDeclaration*>(member.get())) {
                 rc->hasDestructor = true;
                 rc->destructorDecl = dtor;
+            }
+        }
+        for (auto& kv : rc->methods) {
+            for (auto& m : kv.second) {
+                if (m.isVirtual || m.isOverride)
+                    rc->vtable[m.signature] = &m;
             }
         }
         if (rc->staticStorage.size() < rc->staticFields.size())
